@@ -25,6 +25,12 @@ CLAIMS = {
          'architectural register, read-after-write, histories of writes by induction, current-mode access, PC read value, '
          'SPSR banking.',
          'Partial: the 32-bit range invariant over instruction execution is not yet a theorem.'),
+ 'C11': ('each of TakeReset, TakeUndefInstr, TakeSVC, TakeSMC, TakeHypTrap, TakeDataAbort, TakePhysicalIRQ, TakePhysicalFIQ '
+         'and EnterHypMode/EnterMonitorMode/ExcVectorBase proved equal, as a state transformer, to the architecture pseudocode '
+         '(Spec/Exceptions.v) for every state, configuration, routing bit and PC.',
+         'Partial: the dispatch of raised exceptions inside emulate_cycle and the HSR syndrome (write_hsr) are covered by the '
+         'whole-step correspondence only, not yet by theorems; IsExternalAbort/IsAsyncAbort/DebugException are constant false '
+         'in the emulator and so in the statement.'),
  'C12': ('cpsr_write_by_instr = CPSRWriteByInstr for every value/mask/flag/configuration/state; consequences proved on '
          'the spec: unprivileged code cannot alter A/I/F/M, T/J/IT only on exception return, no illegal mode installed, '
          'NMFI, SCR.AW/FW.',
